@@ -32,6 +32,11 @@ def rel_inv(rng):
     """class tree with directories up to depth 3 and init classes; includes written relatively"""
     inv = G.Inv()
     dirs = [(), ('a',), ('a', 'b'), ('a', 'b', 'c'), ('d',)]
+    if rng.random() < 0.3:
+        # literal dots in directory and file names: the location of a class is its directory, not a
+        # prefix of its dotted name
+        dirs += [('e.f',), ('a', 'g.h')]
+    dotted = rng.random() < 0.3
     names = []
     refvals = {}
     for i in range(rng.randint(3, 8)):
@@ -41,8 +46,9 @@ def rel_inv(rng):
             name = '.'.join(d)
             loc = list(d[:-1])
         else:
-            path = d + ('k%d.yml' % i,)
-            name = '.'.join(d + ('k%d' % i,))
+            stem = ('k%d.v' % i) if dotted and rng.random() < 0.5 else 'k%d' % i
+            path = d + (stem + '.yml',)
+            name = '.'.join(d + (stem,))
             loc = list(d)
         if path in inv.classes or name in [n for n, _, _ in names]:
             continue
